@@ -40,7 +40,7 @@ def case(ctx, idx, res):
     r = rng_for(ctx.seed, 'c09', idx)
     drv = ctx.drv('plain')
     thorough = ctx.tier == 'thorough'
-    xml, info = gen_xml.gen_tree(r, size=r.choice([10, 20, 35] + ([70] if thorough else [])), ns=r.random() < 0.6)
+    xml, info = gen_xml.gen_doc(r, size=r.choice([10, 20, 35] + ([70] if thorough else [])), ns=r.random() < 0.6)
     use_xerces = r.random() < 0.25
     if use_xerces and xml.startswith('<!DOCTYPE') and 'xerces-doctype' in ctx.findings_avoid:
         xml = xml[xml.index(']>') + 2:]
